@@ -32,6 +32,7 @@ CATALOGUE = {
     "A-RNG": "Rotation.random(n, random_state) returns proper rotations reproducibly; default_rng(seed).random(k) reproducible values in the open interval (0,1)",
     "A-NPZ": "np.load(f)[k] returns bit-for-bit what savez / np.save-into-ZipFile stored under k; distinct member names coexist",
     "A-CODEC": "yaml.safe_load, csv reader/writer, tomllib, str()/int()/float()/complex() conversions",
+    "A-NUMPY-MA": "numpy.ma: masked_where(c, a) masks where c; arithmetic masks the union of the operands' masks plus x/0 and sqrt(<0) (domain); filled() puts fill_value at masked places",
     "A-POOL": "Pool.imap yields f(x_i) in input order for every worker count",
     "A-SCIPY-Q": "Rotation.from_matrix(.).as_quat(), from_rotvec, from_euler are the standard conversions",
 }
